@@ -98,5 +98,6 @@ def t_contract(func, device):
 
 
 def install(world):
-    register(world, t_contract(EVO_T, "EvoWorklist"))
-    register(world, t_contract(FLU_T, "FluentWorklist"))
+    # the 2-triple scenarios of the thorough tier have ~300 paths each: split them over worker processes
+    for ct in (register(world, t_contract(EVO_T, "EvoWorklist")), register(world, t_contract(FLU_T, "FluentWorklist"))):
+        ct.shards, ct.shard_big_only = 6, True
